@@ -2,7 +2,7 @@
 From Coq Require Import List NArith ZArith Znumtheory Bool.
 From V.Base Require Import Hex BigEndian.
 From V.C16 Require Import Model Proofs FloatProofs Vrf VrfProofs VrfInst VrfEll Curve CurveProofs FieldMod CurveClosure
-  CurveDecompress CurveAdd CurveComplete CurveEncode.
+  CurveDecompress CurveAdd CurveComplete CurveEncode Sha3 Header.
 Import ListNotations.
 Local Open Scope Z_scope.
 
@@ -53,6 +53,35 @@ Print Assumptions C16_helper_value_guarded.
 Theorem C16_is_canonical_go_const : forall s : bytes, is_canonical_go s = 1%N.
 Proof. exact is_canonical_go_const. Qed.
 Print Assumptions C16_is_canonical_go_const.
+
+(* over-long header values (more than 80 bytes), for every value b: the Gamma bytes ECVRFVerify
+   decodes are exactly the bytes the qualification rule reads as the lottery value; from 80 bytes up
+   nobody pads and the log helper agrees as well; a proof followed by extra bytes is seen as the proof;
+   extra bytes in front (the big integer pi + k*2^640) make every consumer read the junk-prefixed
+   string — so an accepted header value always carries the lottery value of the Gamma that verified *)
+Theorem C16_overlong_consumers_agree :
+  (forall b : bytes, verify_gamma b = lottery_reads b) /\
+  (forall b : bytes, (80 <= length b)%nat ->
+     verify_gamma b = firstn 32 b /\ lottery_reads b = firstn 32 b /\ helper_reads b = firstn 32 b) /\
+  (forall pi junk : bytes, length pi = 80%nat ->
+     verify_reads (pi ++ junk) = pi /\ lottery_reads (pi ++ junk) = proof2hash pi) /\
+  (forall junk pi : bytes, length pi = 80%nat ->
+     verify_reads (junk ++ pi) = firstn 80 (junk ++ pi) /\
+     lottery_reads (junk ++ pi) = firstn 32 (junk ++ pi) /\
+     ((length junk <= 32)%nat -> lottery_reads (junk ++ pi) = junk ++ firstn (32 - length junk) pi)).
+Proof. exact (conj verify_lottery_agree (conj overlong_all_agree (conj overlong_suffix overlong_prefix))). Qed.
+Print Assumptions C16_overlong_consumers_agree.
+
+(* the VRF message genVrfMsg(Random, delta) = H^(delta-1)(Random) (H = SHA3-256 in the node): a function
+   of the Random BYTES and delta only; delta <= 1 gives Random itself; one more round hashes once more *)
+Theorem C16_vrf_msg_function : forall (Hsh : bytes -> bytes),
+  (forall r1 r2 d1 d2, r1 = r2 -> d1 = d2 -> gen_vrf_msg Hsh r1 d1 = gen_vrf_msg Hsh r2 d2) /\
+  (forall r d, d <= 1 -> gen_vrf_msg Hsh r d = r) /\
+  (forall r d, 1 <= d -> gen_vrf_msg Hsh r (d + 1) = Hsh (gen_vrf_msg Hsh r d)).
+Proof.
+  exact (fun Hsh => conj (gen_vrf_msg_function Hsh) (conj (gen_vrf_msg_small Hsh) (gen_vrf_msg_step Hsh))).
+Qed.
+Print Assumptions C16_vrf_msg_function.
 
 (* ---------------- quality number ---------------- *)
 
